@@ -166,3 +166,27 @@ Theorem position_index_code_refines_model :
       (0 < dict_val cands (Z.of_nat c) <-> exists v, pos_cand p (nth c ordered []) Y = Some v /\ 0 < v).
 Proof. exact position_candidate_positive. Qed.
 Print Assumptions position_index_code_refines_model.
+
+(* ---- tie: the public wrappers jaccard_join_py / cosine_join_py / dice_join_py as REGENERATED from the
+   source on this run (Gen/WrapperGen.v: DataFrames as values of Model/Frame.v, validators and the
+   tokenizer flag handled by the shape checks of harness/translate/wrappers.py) compute -- through
+   dropna / projection / split_table / the per-chunk loop / concat / missing-value pairs / _id --
+   a frame whose header is header_spec and whose rows are, up to the order within a chunk, the rows
+   of api_join with the declared projection *)
+From SSJ Require Import Frame WrapperGen WrapperRefineFrame WrapperRefineChunks WrapperRefineMissing WrapperRefineCore WrapperRefine WrapperRefineClosed WrapperRefineApi WrapperRefineEnd.
+Theorem generated_jaccard_wrapper_refines_model :
+  ltac:(let t := type of jaccard_join_rows_end_to_end in exact t).
+Proof. exact jaccard_join_rows_end_to_end. Qed.
+Print Assumptions generated_jaccard_wrapper_refines_model.
+Theorem generated_cosine_wrapper_refines_model :
+  ltac:(let t := type of cosine_join_rows_end_to_end in exact t).
+Proof. exact cosine_join_rows_end_to_end. Qed.
+Print Assumptions generated_cosine_wrapper_refines_model.
+Theorem generated_dice_wrapper_refines_model :
+  ltac:(let t := type of dice_join_rows_end_to_end in exact t).
+Proof. exact dice_join_rows_end_to_end. Qed.
+Print Assumptions generated_dice_wrapper_refines_model.
+Theorem generated_split_table_code_chunks :
+  ltac:(let t := type of split_table_chunks in exact t).
+Proof. exact split_table_chunks. Qed.
+Print Assumptions generated_split_table_code_chunks.
